@@ -62,6 +62,9 @@ def bodies(tier):
     for c1, c2 in itertools.product(base, base):
         if c1 != c2:
             out.append("    if %s:\n        return %s\n    elif %s:\n        show_error('E2')\n        return %s\n    else:\n        return %s" % (c1, RETS[0], c2, RETS[1], RETS[2]))
+    # two if statements in sequence (not elif): the second one runs for the members that did not return from the first
+    for c1, c2 in itertools.product(base[:10], base[:10]):
+        out.append("    if %s:\n        return %s\n    if %s:\n        show_error('E4')\n        return %s\n    return %s" % (c1, RETS[0], c2, RETS[1], RETS[2]))
     for c1, c2 in itertools.product(base[:8], base[:8]):
         if c1 != c2:
             out.append("    if %s:\n        if %s:\n            return %s\n        else:\n            show_error('E3')\n            pass\n    else:\n        return %s\n    return %s"
@@ -256,7 +259,7 @@ def _parse_revealed(s):
 def _cond_kind(body):
     feats = []
     for kw, name in (("exclude_any=False", "xany"), ("is_provided", "prov"), ("is_positional", "pos"), ("is_keyword", "kw"), ("(k)", "konly"), (" == ", "eq"), (" != ", "ne"), (" is not ", "isnot"), (" is None", "is"),
-                     ("sys.", "sys"), (" or ", "or"), (" and ", "and"), ("not ", "not"), ("elif", "elif"), ("E3", "nested")):
+                     ("sys.", "sys"), (" or ", "or"), (" and ", "and"), ("not ", "not"), ("elif", "elif"), ("E3", "nested"), ("E4", "seqif")):
         if kw in body:
             feats.append(name)
     return "+".join(feats)
